@@ -15,11 +15,28 @@ def run(rep, tier, seed):
     rep.assumptions = ['Tier B: everything outside the stated bounds is unexplored (DESIGN.md 8.12)',
                        'oracles (canon / elab / occurrence enumeration / Inv) read public attributes only and are calibrated against an AD-level elaborator']
     failed = _pv.run_suite(rep, PID, 'href', tier)
+    # base and step of the induction behind the reflexivity lemma that HRef.__eq__ uses (`a path is the same path as itself`)
+    try:
+        import sys, time
+        from vlib.report import VERIF
+        sys.path.insert(0, VERIF)
+        from pyvc.logic import Ctx
+        from pyvc.verify import discharge
+        from specs import href as _href
+        cx = Ctx(); hh = cx.mk_heap('0')
+        for nm, hyps, goal in _href.induction_lemmas(cx, hh):
+            st_, dt_, why_, be_ = discharge(cx, hyps, goal, 20000)
+            rep.p(nm, st_, be_ or 'z3', dt_, 'HRef.__eq__', why_ if st_ != 'discharged' else None)
+            if st_ == 'failed': failed.append(('HRef.__eq__', {'name': nm, 'detail': why_}))
+    except Exception as e:
+        rep.error('induction lemmas of HRef.__eq__: %r' % (e,))
     rep.explanation = ('validity (P): HRef.is_valid returns exactly valid(reference) -- the path of items is a path of the CURRENT netlist: the root is the top '
                        'instance of the netlist holding the library of its definition, every further instance / port / cable lies in the definition REFERENCED by '
                        'the instance before it, a wire / pin in the cable / port before it -- for all heaps satisfying Inv and all chains of reference nodes; it '
                        'never raises and writes nothing (while-loop cut at the invariant valid(self) == valid(current node); the code tests membership in '
-                       'definition.references, the specification says instance.reference, Inv I3 connects them).  Enumeration, canonicity, uniqueness (B): ' + expl_b)
+                       'definition.references, the specification says instance.reference, Inv I3 connects them); equality (P): HRef.__eq__(other) is True exactly when '
+                       'other is a reference whose chain of items is the same path, item by item (walk in step; reflexivity by induction over the chain, base and '
+                       'step discharged).  Enumeration, flyweight sharing, uniqueness (B): ' + expl_b)
     fails = _designb.run_designs(rep, PID, tier, seed, RULE, extra_bounds={'roots_per_design': 'pool of <= 45 roots of 14 kinds', 'mixed_collections': '6 per query and recursive flag, 2-4 roots each', 'edit_sequences': '26 per design (each edit followed by its undo); see bounded_notes in the evidence', 'paths_through_instances_of_definitions_outside_the_netlist': 'not judged'})
     _designb.report_failures(rep, PID, fails)
     hit = set(v['key'] for v in rep.violations)
@@ -30,7 +47,8 @@ def run(rep, tier, seed):
     rep.trusted = list(getattr(rep, 'trusted', []) or []) + ['pyvc VC generator (DESIGN.md 3), z3/cvc5', 'IR heap model and Inv of specs/ir.py']
     rep.assumptions += ['the netlist satisfies Inv (proved for API-built netlists by C01/C02)',
                         'reference nodes are immutable and their parent chain is finite and acyclic (built bottom-up by from_parent_and_item); termination of the walk is not proved',
-                        'the item of a node is None or an object that is not itself a reference node']
+                        'the item of a node is None or an object that is not itself a reference node, and never an OuterPin (whose == is structural)',
+                        'induction over the parent chain (finite by construction) is the meta-step from the discharged base and step to "every path is the same path as itself"']
 
 
 def replay(path):
